@@ -29,8 +29,9 @@ def run(ctx, env):
     prog = env.prog("default")
     an = An(prog)
     ctx.rule("R9.5", "V9 templates: every parsed template reaches the cache by an overwriting write on every path, and the template reported in the result is the parsed one (shared with C06 R6.8)")
-    ctx.rule("R9.4", "the remainder returned by the record decoder (it becomes padding) advances once per complete record, never inside a nested per-field repetition")
-    reexport.cursor_atomicity_rule(ctx, prog, an, "R9.4", "variable_versions::v9::Data::parse_be")
+    ctx.rule("R9.4", "if a field-decode failure can be swallowed (decoder still returns Ok), the swallowed unit is a whole record: the failure is handled at record level and the returned remainder (it becomes padding) only advances there")
+    from . import records as _records
+    _records.cursor_rule(ctx, prog, an, "R9.4", "variable_versions::v9::Data::parse_be")
     from . import c06 as _c06
     _c06.rule_template_reaches_cache(ctx, prog, an, "R9.5", only_adt="variable_versions::v9::V9Parser")
     ctx.rule("R9.1", "every wire-bearing field the V9 parser fills is emitted by V9::to_be_bytes under the matching flowset kind, in wire order, with the parsed width; derived fields are not emitted; nothing unclassifiable is emitted")
